@@ -276,6 +276,33 @@ func (w *worker) checkSeq(file string, seq []add) {
 	}
 	first := build()
 	dump := first.Dump()
+	// the same Adds with every blob a window of ONE caller-owned buffer (spare
+	// capacity behind each window, as with sub-slices of a signature buffer or
+	// bytes.Buffer.Bytes()): the patch set must not write into the caller's
+	// memory and must come out the same
+	{
+		var pool []byte
+		for _, a := range seq {
+			pool = append(pool, a.Blob...)
+			pool = append(pool, "~~~~"...) // bytes of the caller's that follow each window
+		}
+		orig := append([]byte{}, pool...)
+		p := binpatch.New()
+		o := 0
+		for _, a := range seq {
+			var b []byte
+			if a.Blob != "" {
+				b = pool[o : o+len(a.Blob)]
+			}
+			o += len(a.Blob) + 4
+			p.Add(a.Off, a.Old, b)
+		}
+		if !bytes.Equal(pool, orig) {
+			run.Violation("add-writes-into-callers-buffer", fmt.Sprintf("%s: the buffer the blobs were windows of changed from %q to %q", desc, orig, pool), map[string]any{"file": file, "seq": seq})
+		} else if pd := p.Dump(); !bytes.Equal(pd, dump) {
+			run.Violation("patch-set-depends-on-blob-capacity", fmt.Sprintf("%s: Dump() is %x with exact-capacity blobs and %x with blobs that are windows of one buffer", desc, dump, pd), map[string]any{"file": file, "seq": seq})
+		}
+	}
 	// serialising does not use the patch set up: a second Dump of the same
 	// object gives the same bytes
 	if again := first.Dump(); !bytes.Equal(again, dump) {
